@@ -500,7 +500,7 @@ def random_expr(g: G, r, depth, fam=None):
                       'std::math::ceil', 'std::to_str', 'std::range', 'std::range_unpack', 'std::multirange',
                       'std::array_join', 'std::all', 'std::any', 'std::math::stddev', 'std::bit_and',
                       'default::f_over', 'default::f_over2', 'default::f_def', 'default::f_var',
-                      'default::f_set', 'default::f_arr', 'std::json_get', 'std::random', 'std::to_json'])
+                      'default::f_set', 'default::f_arr', 'std::json_get', 'std::to_json'])
         if f in ('std::array_unpack', 'std::array_join', 'default::f_arr'):
             a = g.arr(sub(), sub())
             args = [a] if f != 'std::array_join' else [g.arr(g.atom('std::str')), g.atom('std::str')]
@@ -524,8 +524,6 @@ def random_expr(g: G, r, depth, fam=None):
             args = [g.atom('std::json')] + [g.atom('std::str') for _ in range(r.choice((1, 2)))]
             if r.random() < 0.5:
                 return g.call(f, args, [('default', g.atom('std::json'))])
-        elif f == 'std::random':
-            args = []
         else:
             args = [sub()]
         return g.call(f, args)
